@@ -138,6 +138,33 @@ def gen_cases(rng, stats, n, shrink=0.15):
             ops += c["ops"][1:]
         c["ops"] = ops
         out.append(c)
+    # directed (ninth round): nodes that carry TWO daemon pods with different restart counts - the restarts of a node are the
+    # sum over its pods, not those of the pod listed last - and an empty list that has to be filled from them
+    for j in range(max(16, n // 16)):
+        nn = rng.choice([4, 6, 8])
+        c = worldgen.gen_eds_world(rng, stats, {"scenario": "canary_running", "n": nn, "canary_k": 0, "no_faults": True,
+                                                "plain_templates": True, "annotations": {}})
+        e = [o for o in c["objects"] if o["kind"] == "ExtendedDaemonSet"][0]
+        can = e["spec"]["strategy"].get("canary")
+        if can is not None:
+            can["replicas"] = rng.choice([1, 2, 2, 3])
+            if "nodeSelector" in can:
+                can["nodeSelector"] = {}
+            can.pop("nodeAntiAffinityKeys", None)
+        has_a = any(o["kind"] == "ExtendedDaemonSetReplicaSet" and o["metadata"]["name"] == "foo-a" for o in c["objects"])
+        c["objects"] = [o for o in c["objects"] if not (o["kind"] == "Pod" and o["metadata"]["name"].startswith("p-"))]
+        for nd in [o for o in c["objects"] if o["kind"] == "Node"]:
+            name = nd["metadata"]["name"]
+            nd.pop("spec", None)          # no taint, not cordoned: every node is a valid candidate, only the restarts decide
+            a, b = rng.choice([(0, 0), (5, 0), (0, 2), (1, 1), (3, 0), (0, 4), (7, 1)])
+            for pre, r_ in (("p-", a), ("q-", b)):
+                c["objects"].append(K.pod(worldgen.NS, pre + name, eds_name=worldgen.EDS, rs_name="foo-a",
+                                          hash_value="@HASH:foo-a" if has_a else "x", node=name,
+                                          cstats=[K.container_status("main", restarts=r_, last_reason="Error" if r_ else None,
+                                                                     last_finished=-50 if r_ else None)]))
+        c["ops"] = [c["ops"][0], dict(c["ops"][0])]     # the first reconcile may only default the object
+        wprop.bump(stats, "directed", "two daemon pods per node with different restart counts")
+        out.append(c)
     return out
 
 
